@@ -91,6 +91,22 @@ Proof.
   rewrite Nat.div_add_l by lia. reflexivity.
 Qed.
 
+(* open finding: a frame larger than the copy buffer.  With nf = 0 frames per pass the loop copies nothing *)
+Definition change_keeps_whole_frames : Prop :=
+  forall buf size o n (file : list nat), 0 < size -> 0 < o -> 0 < n -> size <= buf ->
+    length (change_file 0 (frames_per_pass buf size o n) o n file) = length file / o * n.
+
+Lemma change_keeps_whole_frames_refuted : ~ change_keeps_whole_frames.
+Proof.
+  intros H. specialize (H 64 16 2 5 [1; 2; 3; 4]). vm_compute in H.
+  assert (E : 0 = 10) by (apply H; repeat constructor). discriminate E.
+Qed.
+
+(* the same file with the repaired chunk size (proposed_fixes/C13-11.diff: at least one frame per pass) *)
+Example change_big_frame_repaired :
+  change_file 0 (Nat.max 1 (frames_per_pass 64 16 2 5)) 2 5 [1; 2; 3; 4] = [1; 1; 1; 2; 2; 3; 3; 3; 4; 4].
+Proof. vm_compute. reflexivity. Qed.
+
 Lemma nth_skipn' {A} (d : A) a : forall (l : list A) k, nth k (skipn a l) d = nth (a + k) l d.
 Proof. induction a; intros l k; [reflexivity|]. destruct l; cbn; [now destruct k|]. apply IHa. Qed.
 
